@@ -82,6 +82,8 @@ func (s *Sim) syncViol(kind, detail string) *core.Violation {
 	switch s.Prop {
 	case "C12":
 		ok = true
+	case "C06":
+		ok = false // chain-level history runs use state sync only to add replicas
 	case "C07":
 		ok = strings.HasPrefix(kind, "statesync-crash")
 	case "C01":
@@ -298,6 +300,26 @@ func (s *Sim) syncDonorCheckpoint(sc *syncCtx) *core.Violation {
 			return s.syncViol("statesync-chunk-not-served", fmt.Sprintf("replica %d lists a snapshot of version %d with %d chunks but serves nothing for chunk %d", d.Idx, sc.V, len(meta.Chunks), i))
 		}
 		sc.chunks = append(sc.chunks, rsp.Chunk)
+	}
+	// Peers also ask for chunks the snapshot does not have (and for snapshots the donor does not
+	// have): nothing is served and nothing breaks.
+	for _, q := range []struct {
+		h uint64
+		f uint32
+		c uint32
+	}{{uint64(sc.V), 1, uint32(len(meta.Chunks))}, {uint64(sc.V), 1, uint32(len(meta.Chunks)) + 1}, {uint64(sc.V), 1, 1 << 31}, {uint64(sc.V), 1, ^uint32(0)},
+		{uint64(sc.V), 2, 0}, {uint64(sc.V) + 1000, 1, 0}, {0, 1, 0}} {
+		var rsp *abcitypes.ResponseLoadSnapshotChunk
+		pv, stack = core.Guard(func() {
+			rsp, _ = d.conns.Snapshot().LoadSnapshotChunkSync(abcitypes.RequestLoadSnapshotChunk{Height: q.h, Format: q.f, Chunk: q.c})
+		})
+		if pv != nil {
+			return s.syncViol("statesync-load-panic", fmt.Sprintf("LoadSnapshotChunk(height %d, format %d, chunk %d) on a donor whose snapshot of height %d has %d chunks panicked: %v\n%s", q.h, q.f, q.c, sc.V, len(meta.Chunks), pv, trimStack(stack)))
+		}
+		if rsp != nil && len(rsp.Chunk) > 0 {
+			return s.syncViol("statesync-phantom-chunk-served", fmt.Sprintf("LoadSnapshotChunk(height %d, format %d, chunk %d) served %d bytes although the snapshot of height %d has %d chunks of format 1", q.h, q.f, q.c, len(rsp.Chunk), sc.V, len(meta.Chunks)))
+		}
+		s.St.Inc("fault.statesync.load_request_for_nonexistent_chunk")
 	}
 	sc.meta = meta
 	s.St.Add("probe.statesync.chunks_served", int64(len(meta.Chunks)))
